@@ -132,6 +132,20 @@ Proof.
   - eexists. split; [vm_compute; reflexivity|]. ow_dec.
 Qed.
 
+(** a REPLACEMENT with a constant key (every hypothesis but [key_owned dx] holds): overwrite_item itself is fine,
+    but the final [cJSON_free(object->string)] of apply_patch releases the caller's block *)
+Theorem overwrite_const_replacement_refuted :
+  WF owk_heap owk_F /\ find_root 1%positive owk_F = Some (ow_num 1 1 None) /\
+  find_root 10%positive owk_F = Some (T 10 owk_dx []) /\ key_owned (tdata (ow_num 1 1 None)) /\
+  is_const owk_dx = true /\ rd_key owk_dx = Some 110%positive /\ ~ key_owned owk_dx /\
+  h_own owk_heap !! 110%positive = Some Foreign /\ 110%positive ∈ h_live owk_heap /\
+  patch_root_overwrite (Some 1%positive) (Some 10%positive) owk_heap = Err ForeignFree.
+Proof.
+  split_and!; try (vm_compute; reflexivity).
+  - apply heap_of_WF; [ow_dec|ow_dec|ow_dec|ow_dec|unfold ref_ok; ow_dec].
+  - intros H. specialize (H eq_refl). discriminate H.
+Qed.
+
 (** a "root" with siblings: member 2 ("a") of the object 1 of [ex_heap] (TierBridge.v; members 2 3 4), replacement
     the detached number 7.  The call returns normally; afterwards the member has no next, the object has ONE
     member, members 3 and 4 are still live library blocks (leaked), and 3's prev still points at 2 *)
